@@ -12,8 +12,8 @@ is non-nil afterwards; `Column.Scan` and `Data` are parameters). This file prove
 * `gen_readsql_no_opaque`     — everything was found and translated completely
 * `gen_readsql_canon`         — the term is the canonical one (`canon`: the declaration of the two variables, the loop with
                                  the allocation at the first row — `rows.Columns()`, one `Column` per name with the
-                                 precision and the coercion its name selects, the check of the coercion map,
-                                 `colNames = names` — and `rows.Scan(columns...)`, the test of `rows.Err()`, the result map)
+                                 precision and the coercion its name selects, `colNames = names`, the check of
+                                 the coercion map — and `rows.Scan(columns...)`, the test of `rows.Err()`, the result map)
 * `canon_run`                 — for every environment (ANY `Scan`, `Data`, script, map) the term is the statement-by-statement
                                  mirror `readSqlG`
 * `gen_readsql_semantics`     — run over today's `Column.Scan` / `Data` (QF/Gen/Scan.lean, by `gen_step_semantics` and
@@ -26,13 +26,15 @@ is non-nil afterwards; `Column.Scan` and `Data` are parameters). This file prove
 * `gen_readsql_faults`, `gen_readsql_scan_fault` (C15) — a non-nil `rows.Err()` (the driver failed while fetching a row), a
                                  failing `rows.Columns()`, a failing `Scan` are returned as errors, never swallowed
 * `gen_readsql_refines_spec`  — with `New(data, ColumnOrder(columns...))` taken from the spec (`newS`), the frame is
-                                 `readSqlS names coerce fixed pfloat rows`, for every result set in the scope in which
+                                 `readSqlNamedS names cmap fixed pfloat rows` (the unknown-column rule included), for every result set in the scope in which
                                  `Column.Scan` refines the spec (`C19Sql.inScope` per column; outside it code and spec are
                                  known to differ: `scan_mixed_counterexample`, `scan_leading_nulls_dropped`), with at least
                                  one column (`names ≠ []`: for a result set WITHOUT columns the spec's frame has
                                  `rows.length` rows, the code's — having no column to take a length from — none) and a
                                  driver that does not fail
-* `coerce_check_vacuous`      — the check "column %s does not exist to coerce" can never fire (see there)
+* `gen_readsql_coerce_unknown` / `gen_readsql_coerce_known` — with at least one row, a key of the coercion map that is
+                                 not a column name is an error; when all keys are column names the check passes
+                                 (the repair of the finding `coerce_check_vacuous`: witness at the end)
 
 Witnesses at the end: plausible mutations (a dropped `rows.Err()` check, an ignored `Scan` error, …) violate the statements.
 -/
@@ -47,12 +49,21 @@ def coerceStep : SR := .ifCoerceMap (.lookupCoerce (.ifOk (.setCoerce .done) .do
 /-- `col := &Column{precision: conf.Precision}; …` -/
 def allocBody : SR := .newColumn coerceStep
 
-/-- `checkMap: for name := range conf.CoerceMap { for _, colName := range colNames { if name == colName { continue checkMap }; return error } }` -/
-def checkMap : SR := .rangeCoerceKeys (.rangeColNames (.ifNameIsColName .continueOuter .retErr) .done) .done
+/-- `for _, colName := range colNames { if name == colName { continue checkMap } }; return error` -/
+def innerLoop : SR := .rangeColNames (.ifNameIsColName .continueOuter .done) .retErr
 
-/-- `names, err := rows.Columns(); if err != nil { return error }; for _, name := range names { … };
-if conf.CoerceMap != nil { checkMap … }; colNames = names` -/
-def allocBlock : SR := .getColumns .retErr (.rangeNames allocBody (.ifCoerceMap checkMap (.setColNames .done)))
+/-- `checkMap: for name := range conf.CoerceMap { for _, colName := range colNames { if name == colName { continue checkMap } };
+return error }`: a key of the coercion map that is no column name is an error -/
+def checkMap : SR := .rangeCoerceKeys innerLoop .done
+
+/-- `names, err := rows.Columns(); if err != nil { return error }; for _, name := range names { … }; colNames = names;
+if conf.CoerceMap != nil { checkMap … }` -/
+def allocBlock : SR := .getColumns .retErr (.rangeNames allocBody (.setColNames (.ifCoerceMap checkMap .done)))
+
+/-- the check as it was before the repair of the unknown-column rule: it ran before `colNames = names`, with the `return`
+inside the inner loop -/
+def checkMapOld : SR := .rangeCoerceKeys (.rangeColNames (.ifNameIsColName .continueOuter .retErr) .done) .done
+def allocBlockOld : SR := .getColumns .retErr (.rangeNames allocBody (.ifCoerceMap checkMapOld (.setColNames .done)))
 
 /-- `if columns == nil { … }; err := rows.Scan(columns...); if err != nil { return error }` -/
 def rowBody : SR := .ifColumnsNil allocBlock (.scanRow .retErr .done)
@@ -71,17 +82,17 @@ theorem gen_readsql_no_opaque : Gen.readSqlAst.hasOpaque = false := by decide
 /-- the column `ReadSQL` allocates for the result column `n` -/
 def newCol (E : SREnv) (n : Bytes) : SRColumn := { st := {}, co := E.coerceMap.bind (fun m => m.lookup n) }
 
-/-- does the check of the coercion map return its error? Every key is compared with the FIRST column name only. -/
+/-- does the check of the coercion map return its error? Some key is not among the column names. -/
 def checkFails (E : SREnv) (colNames : List Bytes) : Bool :=
-  match E.coerceMap, colNames with
-  | some m, c :: _ => m.any (fun e => e.1 != c)
-  | _, _ => false
+  match E.coerceMap with
+  | some m => m.any (fun e => !colNames.contains e.1)
+  | none => false
 
 /-- the block `if columns == nil { … }`: `none` = an error is returned -/
 def allocG (E : SREnv) (st : List SRColumn × List Bytes) : Option (List SRColumn × List Bytes) :=
   if st.1.isEmpty then
     if E.columnsFail then none
-    else if checkFails E st.2 then none
+    else if checkFails E E.names then none
     else some (st.1 ++ E.names.map (newCol E), E.names)
   else some st
 
@@ -159,95 +170,108 @@ theorem names_loop : ∀ (ns : List Bytes) (σ : SRSt),
     · simp only [iterSR, h1]; exact h2
     · rw [hc2, hc1]; simp
 
-/-- the inner loop of the check: it looks at the first column name only -/
-theorem inner_loop_nil (σ : SRSt) (h : σ.colNames = []) :
-    (SR.rangeColNames (.ifNameIsColName .continueOuter .retErr) .done).run E σ = .next σ := by
-  simp [SR.run, h, iterSR]
+/-- what the check leaves alone -/
+def Kept (σ' σ : SRSt) : Prop :=
+  σ'.columns = σ.columns ∧ σ'.colNames = σ.colNames ∧ σ'.names = σ.names ∧ σ'.row = σ.row
 
-theorem inner_loop_cons (σ : SRSt) (c : Bytes) (rest : List Bytes) (h : σ.colNames = c :: rest) :
-    (SR.rangeColNames (.ifNameIsColName .continueOuter .retErr) .done).run E σ =
-      if σ.name = c then .contOuter { σ with colName := c } else .retErr := by
-  by_cases hk : σ.name = c <;> simp [SR.run, h, iterSR, srIf, hk]
+/-- the inner loop of the check: is the key among the column names? -/
+theorem inner_iter : ∀ (cs : List Bytes) (σ : SRSt),
+    if cs.contains σ.name then
+      ∃ σ', iterSR false (fun n τ => (SR.ifNameIsColName .continueOuter .done).run E { τ with colName := n }) cs σ =
+        .contOuter σ' ∧ Kept σ' σ
+    else
+      ∃ σ', iterSR false (fun n τ => (SR.ifNameIsColName .continueOuter .done).run E { τ with colName := n }) cs σ =
+        .next σ' ∧ Kept σ' σ ∧ σ'.name = σ.name := by
+  intro cs
+  induction cs with
+  | nil => intro σ; exact ⟨σ, rfl, ⟨rfl, rfl, rfl, rfl⟩, rfl⟩
+  | cons c cs ih =>
+    intro σ
+    by_cases hk : σ.name = c
+    · have hc : (c :: cs).contains σ.name = true := by simp [hk]
+      simp only [hc, if_true]
+      exact ⟨{ σ with colName := c }, by simp [iterSR, SR.run, srIf, hk], ⟨rfl, rfl, rfl, rfl⟩⟩
+    · have hstep : (SR.ifNameIsColName .continueOuter .done).run E { σ with colName := c } = .next { σ with colName := c } := by
+        simp [SR.run, srIf, hk]
+      have hc : (c :: cs).contains σ.name = cs.contains σ.name := by
+        have : (σ.name == c) = false := by simp [hk]
+        rw [List.contains_cons, this, Bool.false_or]
+      have := ih { σ with colName := c }
+      simp only [hc, iterSR, hstep]
+      exact this
 
-/-- the check with no column names yet: nothing happens -/
-theorem keys_loop_nil : ∀ (m : List (Bytes × String)) (σ : SRSt), σ.colNames = [] →
-    ∃ σ', iterSR true (fun e τ => (SR.rangeColNames (.ifNameIsColName .continueOuter .retErr) .done).run E
-        { τ with name := e.1 }) m σ = .next σ' ∧
-      σ'.columns = σ.columns ∧ σ'.colNames = σ.colNames ∧ σ'.names = σ.names ∧ σ'.row = σ.row := by
+theorem innerLoop_run (σ : SRSt) :
+    if σ.colNames.contains σ.name then ∃ σ', innerLoop.run E σ = .contOuter σ' ∧ Kept σ' σ
+    else innerLoop.run E σ = .retErr := by
+  have hu : innerLoop.run E σ =
+      match iterSR false (fun n τ => (SR.ifNameIsColName .continueOuter .done).run E { τ with colName := n }) σ.colNames σ with
+      | .next _ => .retErr
+      | r => r := rfl
+  have hi := inner_iter E σ.colNames σ
+  by_cases hc : σ.colNames.contains σ.name = true
+  · simp only [hc, if_true] at hi ⊢
+    obtain ⟨σ', h1, hk⟩ := hi
+    exact ⟨σ', by rw [hu, h1], hk⟩
+  · simp only [hc] at hi ⊢
+    simp only [Bool.false_eq_true, if_false] at hi ⊢
+    obtain ⟨σ', h1, _, _⟩ := hi
+    rw [hu, h1]
+
+/-- the loop over the keys of the coercion map: the error unless every key is a column name -/
+theorem keys_loop : ∀ (m : List (Bytes × String)) (σ : SRSt),
+    if m.any (fun e => !σ.colNames.contains e.1) then
+      iterSR true (fun e τ => innerLoop.run E { τ with name := e.1 }) m σ = .retErr
+    else ∃ σ', iterSR true (fun e τ => innerLoop.run E { τ with name := e.1 }) m σ = .next σ' ∧ Kept σ' σ := by
   intro m
   induction m with
-  | nil => intro σ _; exact ⟨σ, rfl, rfl, rfl, rfl, rfl⟩
+  | nil => intro σ; simp only [List.any_nil]; exact ⟨σ, rfl, ⟨rfl, rfl, rfl, rfl⟩⟩
   | cons e m ih =>
-    intro σ hcn
-    have hi := inner_loop_nil E { σ with name := e.1 } hcn
-    obtain ⟨σ', h1, h2, h3, h4, h5⟩ := ih { σ with name := e.1 } hcn
-    refine ⟨σ', ?_, h2, h3, h4, h5⟩
-    simp only [iterSR, hi]; exact h1
-
-/-- the check when there are column names: the error unless every key is the first column name -/
-theorem keys_loop_cons (c : Bytes) (rest : List Bytes) : ∀ (m : List (Bytes × String)) (σ : SRSt), σ.colNames = c :: rest →
-    if m.any (fun e => e.1 != c) then
-      iterSR true (fun e τ => (SR.rangeColNames (.ifNameIsColName .continueOuter .retErr) .done).run E
-        { τ with name := e.1 }) m σ = .retErr
-    else ∃ σ', iterSR true (fun e τ => (SR.rangeColNames (.ifNameIsColName .continueOuter .retErr) .done).run E
-        { τ with name := e.1 }) m σ = .next σ' ∧
-      σ'.columns = σ.columns ∧ σ'.colNames = σ.colNames ∧ σ'.names = σ.names ∧ σ'.row = σ.row := by
-  intro m
-  induction m with
-  | nil => intro σ _; simp only [List.any_nil]; exact ⟨σ, rfl, rfl, rfl, rfl, rfl⟩
-  | cons e m ih =>
-    intro σ hcn
-    have hi := inner_loop_cons E { σ with name := e.1 } c rest hcn
+    intro σ
+    have hi := innerLoop_run E { σ with name := e.1 }
+    simp only [] at hi
     simp only [List.any_cons]
-    by_cases hk : e.1 = c
-    · have hb : (e.1 != c) = false := by simp [hk]
-      simp only [hb, Bool.false_or]
-      simp only [hk, if_true] at hi
-      have := ih { σ with name := e.1, colName := c } hcn
-      by_cases ha : (m.any fun e => e.1 != c) = true
+    by_cases hc : σ.colNames.contains e.1 = true
+    · simp only [hc, if_true, Bool.not_true, Bool.false_or] at hi ⊢
+      obtain ⟨σ1, h1, hk1⟩ := hi
+      have := ih σ1
+      rw [hk1.2.1] at this
+      simp only [] at this
+      by_cases ha : (m.any fun e => !σ.colNames.contains e.1) = true
       · simp only [ha, if_true] at this ⊢
-        simp only [iterSR, hi, hk, if_true]; simpa [hk] using this
+        simp only [iterSR, h1, if_true]; exact this
       · simp only [ha] at this ⊢
-        obtain ⟨σ', h1, h2, h3, h4, h5⟩ := this
-        refine ⟨σ', ?_, h2, h3, h4, h5⟩
-        simp only [iterSR, hi, hk, if_true]; simpa [hk] using h1
-    · have hb : (e.1 != c) = true := by simp [hk]
-      simp only [hb, Bool.true_or, if_true]
-      simp only [hk, if_false] at hi
+        obtain ⟨σ', h2, hk2⟩ := this
+        refine ⟨σ', by simp only [iterSR, h1, if_true]; exact h2, ?_⟩
+        exact ⟨hk2.1.trans hk1.1, hk2.2.1.trans hk1.2.1, hk2.2.2.1.trans hk1.2.2.1, hk2.2.2.2.trans hk1.2.2.2⟩
+    · have hc' : σ.colNames.contains e.1 = false := by
+        cases h : σ.colNames.contains e.1 with
+        | false => rfl
+        | true => exact absurd h hc
+      simp only [hc', Bool.false_eq_true, if_false, Bool.not_false, Bool.true_or, if_true] at hi ⊢
       simp only [iterSR, hi]
 
 theorem checkMap_unfold (σ : SRSt) :
     checkMap.run E σ =
-      match iterSR true (fun e τ => (SR.rangeColNames (.ifNameIsColName .continueOuter .retErr) .done).run E
-          { τ with name := e.1 }) (E.coerceMap.getD []) σ with
+      match iterSR true (fun e τ => innerLoop.run E { τ with name := e.1 }) (E.coerceMap.getD []) σ with
       | .next σ' => .next σ'
       | r => r := rfl
 
 theorem checkMap_run (σ : SRSt) (m : List (Bytes × String)) (hm : E.coerceMap = some m) :
     if checkFails E σ.colNames then checkMap.run E σ = .retErr
-    else ∃ σ', checkMap.run E σ = .next σ' ∧ σ'.columns = σ.columns ∧ σ'.colNames = σ.colNames ∧ σ'.names = σ.names ∧
-      σ'.row = σ.row := by
-  cases hcn : σ.colNames with
-  | nil =>
-    obtain ⟨σ', h1, h2, h3, h4, h5⟩ := keys_loop_nil E m σ hcn
-    simp only [checkFails, hm]
-    refine ⟨σ', ?_, h2, h3.trans hcn, h4, h5⟩
-    rw [checkMap_unfold, hm, Option.getD_some, h1]
-  | cons c rest =>
-    have := keys_loop_cons E c rest m σ hcn
-    simp only [checkFails, hm]
-    by_cases ha : (m.any fun e => e.1 != c) = true
-    · simp only [ha, if_true] at this ⊢
-      rw [checkMap_unfold, hm, Option.getD_some, this]
-    · simp only [ha] at this ⊢
-      obtain ⟨σ', h1, h2, h3, h4, h5⟩ := this
-      refine ⟨σ', ?_, h2, h3.trans hcn, h4, h5⟩
-      rw [checkMap_unfold, hm, Option.getD_some, h1]
+    else ∃ σ', checkMap.run E σ = .next σ' ∧ Kept σ' σ := by
+  have := keys_loop E m σ
+  simp only [checkFails, hm]
+  by_cases ha : (m.any fun e => !σ.colNames.contains e.1) = true
+  · simp only [ha, if_true] at this ⊢
+    rw [checkMap_unfold, hm, Option.getD_some, this]
+  · simp only [ha] at this ⊢
+    obtain ⟨σ', h1, hk⟩ := this
+    exact ⟨σ', by rw [checkMap_unfold, hm, Option.getD_some, h1], hk⟩
 
 /-- the block `if columns == nil { … }` entered -/
 theorem allocBlock_run (σ : SRSt) :
     if E.columnsFail then allocBlock.run E σ = .retErr
-    else if checkFails E σ.colNames then allocBlock.run E σ = .retErr
+    else if checkFails E E.names then allocBlock.run E σ = .retErr
     else ∃ σ', allocBlock.run E σ = .next σ' ∧ σ'.columns = σ.columns ++ E.names.map (newCol E) ∧
       σ'.colNames = E.names ∧ σ'.row = σ.row := by
   cases hf : E.columnsFail with
@@ -256,24 +280,31 @@ theorem allocBlock_run (σ : SRSt) :
     simp only [Bool.false_eq_true, if_false]
     obtain ⟨σ1, h1, hc1, hn1, hm1, hr1⟩ := names_loop E E.names { σ with names := E.names }
     simp only [] at hc1 hn1 hm1 hr1
+    have hu : allocBlock.run E σ =
+        match iterSR false (fun n τ => allocBody.run E { τ with name := n }) E.names { σ with names := E.names } with
+        | .next σ' => srIf E.coerceMap.isSome (checkMap.run E) (SR.done.run E) { σ' with colNames := σ'.names }
+        | r => r := by
+      simp only [allocBlock, SR.run, hf, Bool.false_eq_true, if_false]
+      rfl
+    rw [hu, h1]
+    simp only []
     cases hm : E.coerceMap with
     | none =>
-      have hcf : checkFails E σ.colNames = false := by simp [checkFails, hm]
+      have hcf : checkFails E E.names = false := by simp [checkFails, hm]
       simp only [hcf, Bool.false_eq_true, if_false]
-      refine ⟨{ σ1 with colNames := σ1.names }, ?_, hc1, hm1, hr1⟩
-      simp [allocBlock, SR.run, hf, h1, srIf, hm]
+      exact ⟨{ σ1 with colNames := σ1.names }, by simp [srIf, SR.run], hc1, hm1, hr1⟩
     | some m =>
-      have hck := checkMap_run E σ1 m hm
-      rw [hn1] at hck
-      cases hcf : checkFails E σ.colNames with
+      have hck := checkMap_run E { σ1 with colNames := σ1.names } m hm
+      have hcn : ({ σ1 with colNames := σ1.names } : SRSt).colNames = E.names := hm1
+      rw [hcn] at hck
+      cases hcf : checkFails E E.names with
       | true =>
         simp only [hcf, if_true] at hck ⊢
-        simp [allocBlock, SR.run, hf, h1, srIf, hm, hck]
+        simp [srIf, hck]
       | false =>
         simp only [hcf, Bool.false_eq_true, if_false] at hck ⊢
-        obtain ⟨σ2, h2, hc2, _, hm2, hr2⟩ := hck
-        refine ⟨{ σ2 with colNames := σ2.names }, ?_, hc2.trans hc1, hm2.trans hm1, hr2.trans hr1⟩
-        simp [allocBlock, SR.run, hf, h1, srIf, hm, h2]
+        obtain ⟨σ2, h2, hk⟩ := hck
+        refine ⟨σ2, by simp [srIf, h2, SR.run], hk.1.trans hc1, hk.2.1.trans hcn, hk.2.2.2.trans hr1⟩
 
 /-- one round of `for rows.Next()` -/
 theorem rowBody_run (σ : SRSt) (r : List DVal) (hr : σ.row = some r) :
@@ -314,7 +345,7 @@ theorem rowBody_run (σ : SRSt) (r : List DVal) (hr : σ.row = some r) :
       simp [rowBody, SR.run, srIf, he, ha]
     | false =>
       simp only [hf, Bool.false_eq_true, if_false] at ha ⊢
-      cases hcf : checkFails E σ.colNames with
+      cases hcf : checkFails E E.names with
       | true =>
         simp only [hcf, if_true] at ha ⊢
         simp [rowBody, SR.run, srIf, he, ha]
@@ -599,22 +630,22 @@ theorem viewCol_newCol (P : RParams) (cmap : Option (List (Bytes × CoFn))) (S :
     rfl
 
 def checkFailsM (cmap : Option (List (Bytes × CoFn))) (colNames : List Bytes) : Bool :=
-  match cmap, colNames with
-  | some m, c :: _ => m.any (fun e => e.1 != c)
-  | _, _ => false
+  match cmap with
+  | some m => m.any (fun e => !colNames.contains e.1)
+  | none => false
 
 theorem checkFails_env (P : RParams) (cmap : Option (List (Bytes × CoFn))) (S : Script) (cn : List Bytes) :
     checkFails (env P cmap S) cn = checkFailsM cmap cn := by
   unfold checkFails checkFailsM env
   cases cmap with
   | none => rfl
-  | some m => cases cn <;> simp [List.any_map, Function.comp_def]
+  | some m => simp [List.any_map, Function.comp_def]
 
 /-- the block `if columns == nil { … }`: `none` = an error -/
 def allocM (cmap : Option (List (Bytes × CoFn))) (S : Script) (st : List MCol × List Bytes) : Option (List MCol × List Bytes) :=
   if st.1.isEmpty then
     if S.columnsFail then none
-    else if checkFailsM cmap st.2 then none
+    else if checkFailsM cmap S.names then none
     else some (st.1 ++ S.names.map (fun n => (({} : Col), coerceOf cmap n)), S.names)
   else some st
 
@@ -681,7 +712,7 @@ theorem rowG_view (P : RParams) (cmap : Option (List (Bytes × CoFn))) (S : Scri
     | true => simp
     | false =>
       simp only [Bool.false_eq_true, if_false]
-      cases checkFailsM cmap cn with
+      cases checkFailsM cmap S.names with
       | true => simp
       | false =>
         simp only [Bool.false_eq_true, if_false]
@@ -814,7 +845,7 @@ theorem rowM_length (P : RParams) (cmap : Option (List (Bytes × CoFn))) (S : Sc
     by_cases he : st.1.isEmpty = true
     · simp only [he, if_true] at hal
       cases hcf : S.columnsFail <;> simp only [hcf, Bool.false_eq_true, if_false, if_true] at hal
-      · cases hck : checkFailsM cmap st.2 <;> simp only [hck, Bool.false_eq_true, if_false, if_true] at hal
+      · cases hck : checkFailsM cmap S.names <;> simp only [hck, Bool.false_eq_true, if_false, if_true] at hal
         · simp only [Option.some.injEq] at hal
           subst hal
           have : st.1 = [] := List.isEmpty_iff.1 he
@@ -1057,11 +1088,9 @@ theorem rows_transpose (P : RParams) : ∀ (rows : List (List DVal)) (cols : Lis
 def cols0 (cmap : Option (List (Bytes × CoFn))) (names : List Bytes) : List MCol :=
   names.map (fun n => (({} : Col), coerceOf cmap n))
 
-theorem checkFailsM_nil (cmap : Option (List (Bytes × CoFn))) : checkFailsM cmap [] = false := by
-  cases cmap <;> rfl
-
-/-- the rounds after the allocation -/
-theorem rowsM_allocated (P : RParams) (cmap : Option (List (Bytes × CoFn))) (S : Script) (hcf : S.columnsFail = false) :
+/-- the rounds after the allocation (the check of the coercion map passes) -/
+theorem rowsM_allocated (P : RParams) (cmap : Option (List (Bytes × CoFn))) (S : Script) (hcf : S.columnsFail = false)
+    (hck : checkFailsM cmap S.names = false) :
     ∀ (rows : List (List DVal)) (c1 : List MCol), c1.length = S.names.length →
     rowsM P cmap S rows (c1, S.names) = (rows.foldlM (step2 P) c1).map (fun c => (c, S.names)) := by
   intro rows
@@ -1076,7 +1105,8 @@ theorem rowsM_allocated (P : RParams) (cmap : Option (List (Bytes × CoFn))) (S 
         have hn : S.names = [] := by
           have : S.names.length = 0 := by rw [← hlen, h1]; rfl
           exact List.eq_nil_of_length_eq_zero this
-        simp [h1, hn, hcf, checkFailsM_nil]
+        simp [h1, hcf, hck]
+        exact hn
       · simp [he]
     simp only [rowsM, rowM, halloc, List.foldlM_cons, step2]
     by_cases hl : r.length = c1.length
@@ -1093,33 +1123,39 @@ theorem rowsM_allocated (P : RParams) (cmap : Option (List (Bytes × CoFn))) (S 
 theorem rowsM_start (P : RParams) (cmap : Option (List (Bytes × CoFn))) (S : Script) (r : List DVal) (rows : List (List DVal)) :
     rowsM P cmap S (r :: rows) ([], []) =
       if S.columnsFail then none
+      else if checkFailsM cmap S.names then none
       else ((r :: rows).foldlM (step2 P) (cols0 cmap S.names)).map (fun c => (c, S.names)) := by
   cases hcf : S.columnsFail with
   | true => simp [rowsM, rowM, allocM, hcf]
   | false =>
-    have halloc : allocM cmap S ([], []) = some (cols0 cmap S.names, S.names) := by
-      simp [allocM, hcf, checkFailsM_nil, cols0]
-    simp only [rowsM, rowM, halloc, List.foldlM_cons, step2, Bool.false_eq_true, if_false]
-    by_cases hl : r.length = (cols0 cmap S.names).length
-    · simp only [hl, if_true]
-      cases hs : scanRowM P (cols0 cmap S.names) r with
-      | none => rfl
-      | some c2 =>
-        simp only [Option.map_some, Option.bind_eq_bind, Option.bind_some]
-        have := rowsM_allocated P cmap S hcf rows c2
-          ((scanRowM_length P _ r c2 hs).trans (by simp [cols0]))
-        simpa [step2] using this
-    · simp [hl]
+    cases hck : checkFailsM cmap S.names with
+    | true => simp [rowsM, rowM, allocM, hcf, hck]
+    | false =>
+      have halloc : allocM cmap S ([], []) = some (cols0 cmap S.names, S.names) := by
+        simp [allocM, hcf, hck, cols0]
+      simp only [rowsM, rowM, halloc, List.foldlM_cons, step2, Bool.false_eq_true, if_false]
+      by_cases hl : r.length = (cols0 cmap S.names).length
+      · simp only [hl, if_true]
+        cases hs : scanRowM P (cols0 cmap S.names) r with
+        | none => rfl
+        | some c2 =>
+          simp only [Option.map_some, Option.bind_eq_bind, Option.bind_some]
+          have := rowsM_allocated P cmap S hcf hck rows c2
+            ((scanRowM_length P _ r c2 hs).trans (by simp [cols0]))
+          simpa [step2] using this
+      · simp [hl]
 
 /-- **The closed form of `ReadSQL`**: `none` = an error is returned. No rows: no columns are allocated (the error of
-`rows.Err()` apart). Else `rows.Columns()` must succeed, every row must have one value per column, every column — a zero
-`Column` with the coercion its name selects — is fed with its values by `Column.Scan` (`colM`), `rows.Err()` must be nil,
-and the result maps every name to `Data()` of its column (the later of two columns with the same name wins). -/
+`rows.Err()` apart). Else `rows.Columns()` must succeed, every key of the coercion map must be a column name, every row
+must have one value per column, every column — a zero `Column` with the coercion its name selects — is fed with its values
+by `Column.Scan` (`colM`), `rows.Err()` must be nil, and the result maps every name to `Data()` of its column (the later
+of two columns with the same name wins). -/
 def readSqlM (P : RParams) (cmap : Option (List (Bytes × CoFn))) (S : Script) : Option (MData × List Bytes) :=
   match S.rows with
   | [] => if S.finalErr then none else some ([], [])
   | _ :: _ =>
     if S.columnsFail then none
+    else if checkFailsM cmap S.names then none
     else if !(S.rows.all (fun r => r.length == S.names.length)) then none
     else
       match colsIdx (fun j c => colM P c (S.rows.map (fun r => r[j]!))) 0 (cols0 cmap S.names) with
@@ -1139,11 +1175,15 @@ theorem readSqlRowM_eq (P : RParams) (cmap : Option (List (Bytes × CoFn))) (S :
     | true => rfl
     | false =>
       simp only [Bool.false_eq_true, if_false]
-      cases hall : (r :: rows).all (fun r => r.length == S.names.length) with
-      | false => rfl
-      | true =>
-        simp only [if_true, Bool.not_true, Bool.false_eq_true, if_false]
-        cases colsIdx (fun j c => colM P c ((r :: rows).map (fun r => r[j]!))) 0 (cols0 cmap S.names) <;> rfl
+      cases checkFailsM cmap S.names with
+      | true => rfl
+      | false =>
+        simp only [Bool.false_eq_true, if_false]
+        cases hall : (r :: rows).all (fun r => r.length == S.names.length) with
+        | false => rfl
+        | true =>
+          simp only [if_true, Bool.not_true, Bool.false_eq_true, if_false]
+          cases colsIdx (fun j c => colM P c ((r :: rows).map (fun r => r[j]!))) 0 (cols0 cmap S.names) <;> rfl
 
 /-- **`ReadSQL` of today's source, over today's `Column.Scan` and `Data`, is `readSqlM`** — for EVERY scripted result
 set (any names, any rows of any driver values, `rows.Columns()` failing or not, `rows.Err()` nil or not), every coercion
@@ -1155,6 +1195,14 @@ theorem gen_readsql_semantics (P : RParams) (cmap : Option (List (Bytes × CoFn)
   rw [← readSqlRowM_eq]
   exact gen_readsql_rowmajor P cmap S
 
+theorem readSqlM_none_error (P : RParams) (cmap : Option (List (Bytes × CoFn))) (S : Script)
+    (h : readSqlM P cmap S = none) : genReadSql P cmap S = some none := by
+  obtain ⟨r, hr, hv⟩ := gen_readsql_semantics P cmap S
+  rw [hr, h] at *
+  cases r with
+  | none => rfl
+  | some x => simp at hv
+
 /-! ## The failing-row and `rows.Err` rules (C15) -/
 
 /-- **A driver failure is never swallowed**: when `rows.Err()` is non-nil after the loop (the driver failed while
@@ -1162,25 +1210,20 @@ fetching a row, so `Next` returned false early), or `rows.Columns()` fails at th
 whatever rows were delivered before. -/
 theorem gen_readsql_faults (P : RParams) (cmap : Option (List (Bytes × CoFn))) (S : Script)
     (h : S.finalErr = true ∨ (S.columnsFail = true ∧ S.rows ≠ [])) : genReadSql P cmap S = some none := by
-  obtain ⟨r, hr, hv⟩ := gen_readsql_semantics P cmap S
-  rw [hr]
-  have : readSqlM P cmap S = none := by
-    unfold readSqlM
-    rcases h with h | ⟨h1, h2⟩
-    · cases S.rows with
-      | nil => simp [h]
-      | cons r rows =>
-        simp only [h, if_true]
-        cases S.columnsFail <;> simp only [Bool.false_eq_true, if_false, if_true]
-        cases (!(r :: rows).all fun r => r.length == S.names.length) <;> simp only [Bool.false_eq_true, if_false, if_true]
-        cases colsIdx (fun j c => colM P c ((r :: rows).map (fun r => r[j]!))) 0 (cols0 cmap S.names) <;> rfl
-    · cases hrows : S.rows with
-      | nil => exact absurd hrows h2
-      | cons r rows => simp [h1]
-  rw [this] at hv
-  cases r with
-  | none => rfl
-  | some x => simp at hv
+  apply readSqlM_none_error
+  unfold readSqlM
+  rcases h with h | ⟨h1, h2⟩
+  · cases S.rows with
+    | nil => simp [h]
+    | cons r rows =>
+      simp only [h, if_true]
+      cases S.columnsFail <;> simp only [Bool.false_eq_true, if_false, if_true]
+      cases checkFailsM cmap S.names <;> simp only [Bool.false_eq_true, if_false, if_true]
+      cases (!(r :: rows).all fun r => r.length == S.names.length) <;> simp only [Bool.false_eq_true, if_false, if_true]
+      cases colsIdx (fun j c => colM P c ((r :: rows).map (fun r => r[j]!))) 0 (cols0 cmap S.names) <;> rfl
+  · cases hrows : S.rows with
+    | nil => exact absurd hrows h2
+    | cons r rows => simp [h1]
 
 /-- … and a `Scan` that fails for some row (a value `Column.Scan` rejects, a row of another width) is an error too. -/
 theorem gen_readsql_scan_fault (P : RParams) (cmap : Option (List (Bytes × CoFn))) (S : Script)
@@ -1193,16 +1236,64 @@ theorem gen_readsql_scan_fault (P : RParams) (cmap : Option (List (Bytes × CoFn
     | nil => rw [hrows] at h; simp at h
     | cons r rows =>
       rw [rowsM_start, ← hrows, h]
-      cases S.columnsFail <;> rfl
+      cases S.columnsFail <;> cases checkFailsM cmap S.names <;> rfl
   rw [this] at hv
   cases r with
   | none => rfl
   | some x => simp at hv
 
-/-- The check "column %s does not exist to coerce" can never fire: when it runs, `colNames` is still empty (it is
-assigned two statements later), so the inner loop has no rounds. A coercion map that names a column the result set does
-not have is silently ignored. -/
-theorem coerce_check_vacuous (cmap : Option (List (Bytes × CoFn))) : checkFailsM cmap [] = false := checkFailsM_nil cmap
+/-! ## The unknown-column rule of the coercion map -/
+
+/-- the check fails exactly when some key of the coercion map is not a column name -/
+theorem checkFailsM_iff (cmap : Option (List (Bytes × CoFn))) (names : List Bytes) :
+    checkFailsM cmap names = true ↔ ∃ m, cmap = some m ∧ ∃ e ∈ m, e.1 ∉ names := by
+  cases cmap with
+  | none => simp [checkFailsM]
+  | some m => simp [checkFailsM, List.any_eq_true]
+
+/-- **A coercion for a column the result set does not have is reported**: for every scripted result set with at least one
+row, if some key of the coercion map is not among the names `rows.Columns()` returns, `ReadSQL` of today's source returns
+an error (at the first row, before any value is scanned) — whatever the rows hold. -/
+theorem gen_readsql_coerce_unknown (P : RParams) (m : List (Bytes × CoFn)) (S : Script) (hrows : S.rows ≠ [])
+    (k : Bytes) (hk : k ∈ m.map (·.1)) (hnot : k ∉ S.names) : genReadSql P (some m) S = some none := by
+  apply readSqlM_none_error
+  have hck : checkFailsM (some m) S.names = true := by
+    rw [checkFailsM_iff]
+    obtain ⟨e, he, rfl⟩ := List.mem_map.1 hk
+    exact ⟨m, rfl, e, he, hnot⟩
+  unfold readSqlM
+  cases hr : S.rows with
+  | nil => exact absurd hr hrows
+  | cons r rows =>
+    simp only [hck, if_true]
+    cases S.columnsFail <;> rfl
+
+/-- … and conversely, when every key is a column name (or there is no map) the check passes: `ReadSQL` is what it is
+without the check. -/
+theorem gen_readsql_coerce_known (P : RParams) (cmap : Option (List (Bytes × CoFn))) (S : Script)
+    (hall : ∀ m, cmap = some m → ∀ e ∈ m, e.1 ∈ S.names) :
+    checkFailsM cmap S.names = false ∧
+    readSqlM P cmap S =
+      match S.rows with
+      | [] => if S.finalErr then none else some ([], [])
+      | _ :: _ =>
+        if S.columnsFail then none
+        else if !(S.rows.all (fun r => r.length == S.names.length)) then none
+        else
+          match colsIdx (fun j c => colM P c (S.rows.map (fun r => r[j]!))) 0 (cols0 cmap S.names) with
+          | none => none
+          | some mcols => if S.finalErr then none else (resultM S.names 0 mcols []).map (fun m => (m, S.names)) := by
+  have hck : checkFailsM cmap S.names = false := by
+    cases h : checkFailsM cmap S.names with
+    | false => rfl
+    | true =>
+      obtain ⟨m, hm, e, he, hn⟩ := (checkFailsM_iff cmap S.names).1 h
+      exact absurd (hall m hm e he) hn
+  refine ⟨hck, ?_⟩
+  unfold readSqlM
+  cases S.rows with
+  | nil => rfl
+  | cons r rows => simp only [hck, Bool.false_eq_true, if_false]
 
 /-! ## Against the spec: `New(data, ColumnOrder(colNames...))` of what `ReadSQL` returns is `readSqlS` -/
 
@@ -1728,18 +1819,12 @@ theorem columns_spec (δ : SqlVal → DVal) (hδ : ∀ v, DVal.toSql (δ v) = so
 
 end Spec
 
-/-- **`ReadSQL` of today's source, followed by `New(data, ColumnOrder(columns...))`, is the spec's `readSqlS`.**
-For every result set `rows` of `SqlVal`s with one value per column (`names ≠ []`), delivered by the driver in any way
-that denotes them (`δ`: text as `string` or as `[]uint8`), every coercion map, precision, `float.Fixed` and
-`strconv.ParseFloat`, when every column is in the scope in which `Column.Scan` refines the spec
-(`C19Sql.inScope`: a column without coercion is typed and has no NULL in front of the first value of an int / bool column;
-an `Int64ToBool` column is not empty) and the driver does not fail: the frame is `readSqlS`'s — an error when a `Scan`
-fails, a column has NULLs only, a name is illegal or occurs twice, else the columns in the order of the names with one row
-per row. -/
-theorem gen_readsql_refines_spec (P : RParams) (cmap : Option (List (Bytes × CoFn))) (names : List Bytes)
+/-- the frame when the check of the coercion map passes: the spec's `readSqlS` with the coercions looked up by name -/
+theorem refines_of_check (P : RParams) (cmap : Option (List (Bytes × CoFn))) (names : List Bytes)
     (rows : List (List SqlVal)) (δ : SqlVal → DVal) (hδ : ∀ v, DVal.toSql (δ v) = some v) (hn : names ≠ [])
     (harity : ∀ r ∈ rows, r.length = names.length)
-    (hscope : ∀ j, j < names.length → inScope (coerceOf cmap names[j]!) (rows.map (fun r => r[j]!)) = true) :
+    (hscope : ∀ j, j < names.length → inScope (coerceOf cmap names[j]!) (rows.map (fun r => r[j]!)) = true)
+    (hck : checkFailsM cmap names = false) :
     ∃ r, genReadSql P cmap { names := names, rows := rows.map (List.map δ) } = some r ∧
       frameOf (r.map viewRes) =
         readSqlS names (names.map (fun n => (coerceOf cmap n).toNat)) (P.cfg .none).fixed P.pfloat rows := by
@@ -1757,7 +1842,9 @@ theorem gen_readsql_refines_spec (P : RParams) (cmap : Option (List (Bytes × Co
       unfold readSqlM
       cases hrows : rows with
       | nil => exact absurd hrows hr0
-      | cons r0 rs => rfl
+      | cons r0 rs =>
+        have hck' : checkFailsM cmap ({ names := names, rows := List.map (List.map δ) (r0 :: rs) } : Script).names = false := hck
+        simp only [List.map_cons, hck', Bool.false_eq_true, if_false]
     have hS : readSqlS names (names.map (fun n => (coerceOf cmap n).toNat)) (P.cfg .none).fixed P.pfloat rows =
         if ((List.range' 0 names.length).map (specCol P cmap names rows)).any (·.isNone) then .err
         else if !(names.all legalName) || names.eraseDups.length != names.length then .err
@@ -1816,6 +1903,88 @@ theorem gen_readsql_refines_spec (P : RParams) (cmap : Option (List (Bytes × Co
           ((List.range' 0 names.length).map (specCol P cmap names rows)).filterMap id := by
         simp only [List.filterMap_map, Function.comp_def, id]
       rw [hany, hfm]
+
+/-- the coercion map as the spec has it: the column name and the number of the coercion -/
+def specCmap (cmap : Option (List (Bytes × CoFn))) : List (Bytes × Nat) :=
+  (cmap.getD []).map (fun e => (e.1, e.2.coerce.toNat))
+
+theorem coerceOf_spec (cmap : Option (List (Bytes × CoFn))) (n : Bytes) :
+    (coerceOf cmap n).toNat = (((specCmap cmap).find? (·.1 == n)).map (·.2)).getD 0 := by
+  unfold coerceOf specCmap
+  cases cmap with
+  | none => rfl
+  | some m =>
+    simp only [Option.bind_some, Option.getD_some]
+    induction m with
+    | nil => rfl
+    | cons e m ih =>
+      obtain ⟨k, v⟩ := e
+      by_cases hk : k = n
+      · subst hk
+        simp [List.lookup_cons]
+      · have h1 : (n == k) = false := by simp; exact fun h => hk h.symm
+        have h2 : (k == n) = false := by simp [hk]
+        simp only [List.lookup_cons, h1, List.map_cons, List.find?_cons, h2]
+        exact ih
+
+theorem specCmap_any (cmap : Option (List (Bytes × CoFn))) (names : List Bytes) :
+    (specCmap cmap).any (fun e => e.2 != 0 && !names.contains e.1) = checkFailsM cmap names := by
+  unfold specCmap checkFailsM
+  cases cmap with
+  | none => rfl
+  | some m =>
+    simp only [Option.getD_some, List.any_map, Function.comp_def]
+    induction m with
+    | nil => rfl
+    | cons e m ih =>
+      simp only [List.any_cons, ih]
+      cases e.2 <;> simp [CoFn.coerce, Coerce.toNat]
+
+/-- **`ReadSQL` of today's source, followed by `New(data, ColumnOrder(columns...))`, is the spec's `readSqlNamedS`.**
+For every result set `rows` of `SqlVal`s with one value per column (`names ≠ []`), delivered by the driver in any way
+that denotes them (`δ`: text as `string` or as `[]uint8`), every coercion map, precision, `float.Fixed` and
+`strconv.ParseFloat`, when every column is in the scope in which `Column.Scan` refines the spec
+(`C19Sql.inScope`: a column without coercion is typed and has no NULL in front of the first value of an int / bool column;
+an `Int64ToBool` column is not empty) and the driver does not fail: the frame is `readSqlNamedS`'s — an error when the
+result set has a row and the coercion map names a column it does not have, when a `Scan` fails, a column has NULLs only,
+a name is illegal or occurs twice; else the columns in the order of the names, each with the coercion its name selects,
+with one row per row. -/
+theorem gen_readsql_refines_spec (P : RParams) (cmap : Option (List (Bytes × CoFn))) (names : List Bytes)
+    (rows : List (List SqlVal)) (δ : SqlVal → DVal) (hδ : ∀ v, DVal.toSql (δ v) = some v) (hn : names ≠ [])
+    (harity : ∀ r ∈ rows, r.length = names.length)
+    (hscope : ∀ j, j < names.length → inScope (coerceOf cmap names[j]!) (rows.map (fun r => r[j]!)) = true) :
+    ∃ r, genReadSql P cmap { names := names, rows := rows.map (List.map δ) } = some r ∧
+      frameOf (r.map viewRes) = readSqlNamedS names (specCmap cmap) (P.cfg .none).fixed P.pfloat rows := by
+  cases hck : checkFailsM cmap names with
+  | false =>
+    obtain ⟨r, hr, hf⟩ := refines_of_check P cmap names rows δ hδ hn harity hscope hck
+    refine ⟨r, hr, ?_⟩
+    rw [hf]
+    unfold readSqlNamedS
+    rw [specCmap_any, hck]
+    have hco : names.map (fun n => (coerceOf cmap n).toNat) =
+        names.map (fun n => (((specCmap cmap).find? (·.1 == n)).map (·.2)).getD 0) := by
+      apply List.map_congr_left
+      intro n _
+      exact coerceOf_spec cmap n
+    rw [hco]
+    by_cases hr0 : rows.isEmpty = true
+    · have : rows = [] := List.isEmpty_iff.1 hr0
+      subst this
+      rfl
+    · simp [hr0]
+  | true =>
+    obtain ⟨r, hr, hv⟩ := gen_readsql_semantics P cmap { names := names, rows := rows.map (List.map δ) }
+    refine ⟨r, hr, ?_⟩
+    rw [hv]
+    unfold readSqlNamedS
+    rw [specCmap_any, hck]
+    cases rows with
+    | nil => rfl
+    | cons r0 rs =>
+      have hck' : checkFailsM cmap ({ names := names, rows := List.map (List.map δ) (r0 :: rs) } : Script).names = true := hck
+      simp only [readSqlM, List.map_cons, hck', if_true, List.isEmpty_cons, Bool.false_eq_true, if_false]
+      cases ({ names := names, rows := List.map δ r0 :: List.map (List.map δ) rs } : Script).columnsFail <;> rfl
 
 /-! ## Witnesses: the statements tell wrong glue apart -/
 
@@ -1885,12 +2054,19 @@ example : runW (withRow (.ifColumnsNil (.getColumns .retErr (.rangeNames (.newCo
     runW canon (some [(na, .int64ToBool)]) { names := [na], rows := [[.int 1]] } =
       .ok [⟨na, some .bools, [], [true], []⟩] [na] := by decide
 
-/-- the check of the coercion map in today's term is vacuous: a map naming a column that does not exist is accepted;
-had `colNames = names` come before the check, the same call would be the error — for EVERY map with a key other than the
-first column name, e.g. one that names the second column -/
-example : runW canon (some [(nb, .int64ToBool)]) { names := [na], rows := [[.int 1]] } =
-      .ok [⟨na, some .ints, [1], [], []⟩] [na] ∧
-    runW (withRow (.ifColumnsNil (.getColumns .retErr (.rangeNames allocBody (.setColNames (.ifCoerceMap checkMap .done))))
+/-- **the defect that was repaired**: in the OLD term (the check before `colNames = names`, the `return` inside the inner
+loop) the inner loop has no rounds, so a map naming a column the result set does not have is accepted; today's term reports
+it — and accepts a map whose keys are all column names, whatever their order -/
+example : runW (withRow (.ifColumnsNil allocBlockOld (.scanRow .retErr .done))) (some [(nb, .int64ToBool)])
+      { names := [na], rows := [[.int 1]] } = .ok [⟨na, some .ints, [1], [], []⟩] [na] ∧
+    runW canon (some [(nb, .int64ToBool)]) { names := [na], rows := [[.int 1]] } = .error ∧
+    runW canon (some [(nb, .int64ToBool)]) { names := [na, nb], rows := [[.int 1, .int 0]] } =
+      .ok [⟨na, some .ints, [1], [], []⟩, ⟨nb, some .bools, [], [false], []⟩] [na, nb] ∧
+    runW canon (some [(nb, .int64ToBool)]) { names := [na], rows := [] } = .ok [] [] := by
+  decide
+
+/-- the `return` left inside the inner loop (after `colNames = names`): a map naming the SECOND column is rejected -/
+example : runW (withRow (.ifColumnsNil (.getColumns .retErr (.rangeNames allocBody (.setColNames (.ifCoerceMap checkMapOld .done))))
         (.scanRow .retErr .done))) (some [(nb, .int64ToBool)]) { names := [na, nb], rows := [[.int 1, .int 0]] } = .error := by
   decide
 
@@ -1903,6 +2079,7 @@ end Witnesses
 #print axioms gen_readsql_faults
 #print axioms gen_readsql_scan_fault
 #print axioms gen_readsql_refines_spec
-#print axioms coerce_check_vacuous
+#print axioms gen_readsql_coerce_unknown
+#print axioms gen_readsql_coerce_known
 
 end QF.Props.C19ReadSqlGen
